@@ -14,10 +14,12 @@ import MellonDriver.Serial
 import MellonDriver.Persist
 import MellonDriver.TimeArgs
 import MellonDriver.TimeNN
+import MellonDriver.Validate
+import MellonDriver.Staged
 open Mellon Drv
 
 /-- All handlers, tried in order. -/
-def handlers : List Handler := [handleKernel, handleCond, handleDecomp, handleRank, handleParams, handleInference, handleOptimize, handleSerial, handlePersist, handleTimeArgs, handleTimeNN]
+def handlers : List Handler := [handleKernel, handleCond, handleDecomp, handleRank, handleParams, handleInference, handleOptimize, handleSerial, handlePersist, handleTimeArgs, handleTimeNN, handleValidate, handleStaged]
 
 def handle : P String := do
   let op ← tok
